@@ -1,2 +1,158 @@
--- stub: replaced by the C18 driver
-def main : IO Unit := pure ()
+/-
+  Driver.C18 — runs the C18 CodeModel (Golib.Conf.*) on operation lines.
+
+  Strings travel as the hexadecimal code points of their characters separated by '.'
+  ("6b.3d.31" = "k=1"); the empty string is "-".  Lists of strings are separated by ','
+  and the empty list is "[]".  Pairs are written key:value.
+
+  Stateful ops (one FileConfig + one file + an environment):
+    N                         new FileConfig state (empty map, nothing loaded), file absent, env kept
+    V <key> <val>             the process environment has key=val
+    E <mtimeNs> <text>        the file now holds <text>, modification time <mtimeNs>
+    D                         the file is removed
+    R                         one reload (full-version comparison: mtime in ns + size)
+    RS                        one reload with the whole-second comparison of the unchanged code
+       → (nofile | reset | same | loaded | parseerr | expansion) <notified so far>
+    G v <key>                 GetValue            → <str>
+    G d <key> <def>           GetValueDef         → <str>
+    G b <key> <0|1>           GetBoolean          → 0|1
+    G i <key> <def>           GetInt              → int32
+    G l <key> <def>           GetLong             → int64
+    G f <key>                 GetFloat            → def | parse <str>   (float parsing itself: tie B only)
+    G a <key> <def> <deli>    GetStringArray      → list
+    G s <key> <def> <deli>    GetIntSet           → ints separated by ',' or "[]"
+    G S <key> <def> <deli>    GetIntSet, unchanged code (inverted err test)
+    K                         GetKeys             → list (map order of the model)
+  Stateless ops:
+    P <text>                  parse + Read        → ok <pairs> | malformed | expansion
+    W <fixC> <text> <pairs>   DefaultFileParser.Write → ok <body lines> <appended lines> | malformed
+    S <fixC> <pre> <suf> <excl list> <text> <pairs>   SetValues → same answer as W
+    C <trunc|atomic> <old> <new>  contents of the configuration file over all stop points → list
+-/
+import Golib.Conf.Getters
+import Golib.Conf.Reload
+import Golib.Conf.FS
+import Driver.Common
+
+open Conf Drv
+
+def hexNat (n : Nat) : String := String.ofList (Nat.toDigits 16 n)
+
+def encStr (s : Str) : String :=
+  if s.isEmpty then "-" else ".".intercalate (s.map (fun c => hexNat c.toNat))
+
+def parseHexNat (s : String) : Option Nat :=
+  if s.isEmpty then none else
+  s.toList.foldl (fun acc c => match acc, Conf.hexVal c with
+    | some a, some d => some (a * 16 + d)
+    | _, _ => none) (some 0)
+
+def decStr (s : String) : Option Str :=
+  if s == "-" then some [] else
+  (s.splitOn ".").mapM (fun h => (parseHexNat h).map Char.ofNat)
+
+def encList (xs : List Str) : String :=
+  if xs.isEmpty then "[]" else ",".intercalate (xs.map encStr)
+
+def decList (s : String) : Option (List Str) :=
+  if s == "[]" then some [] else (s.splitOn ",").mapM decStr
+
+def encPairs (xs : KV) : String :=
+  if xs.isEmpty then "[]" else ",".intercalate (xs.map (fun p => encStr p.1 ++ ":" ++ encStr p.2))
+
+def decPairs (s : String) : Option KV :=
+  if s == "[]" then some [] else
+  (s.splitOn ",").mapM (fun p => match p.splitOn ":" with
+    | [k, v] => do let k ← decStr k; let v ← decStr v; pure (k, v)
+    | _ => none)
+
+def encInts (xs : List Int) : String :=
+  if xs.isEmpty then "[]" else ",".intercalate (xs.map toString)
+
+structure DrvSt where
+  cfg : Cfg := Cfg.init
+  file : Option FileSt := none
+  env : KV := []
+
+def showRes (c : Cfg) : ReloadRes → String
+  | .nofile => s!"nofile {c.notified}"
+  | .reset => s!"reset {c.notified}"
+  | .same => s!"same {c.notified}"
+  | .loaded => s!"loaded {c.notified}"
+  | .parseErr => s!"parseerr {c.notified}"
+  | .expansion => s!"expansion {c.notified}"
+
+def showWrite : Option WriteOut → String
+  | none => "malformed"
+  | some w => s!"ok {encList w.body} {encList w.appended}"
+
+def getter (st : DrvSt) (args : List String) : String :=
+  let m := st.cfg.m
+  let env := st.env
+  match args with
+  | ["v", k] => match decStr k with
+    | some k => encStr (getValue m env k) | none => "bad-op"
+  | ["d", k, d] => match decStr k, decStr d with
+    | some k, some d => encStr (getValueDef m env k d) | _, _ => "bad-op"
+  | ["b", k, d] => match decStr k with
+    | some k => if getBoolean m env k (d == "1") then "1" else "0" | none => "bad-op"
+  | ["i", k, d] => match decStr k, parseInt d with
+    | some k, some d => toString (getInt m env k d) | _, _ => "bad-op"
+  | ["l", k, d] => match decStr k, parseInt d with
+    | some k, some d => toString (getLong m env k d) | _, _ => "bad-op"
+  | ["f", k] => match decStr k with
+    | some k =>
+      let v := getValue m env k
+      if v.isEmpty then "def" else "parse " ++ encStr v
+    | none => "bad-op"
+  | ["a", k, d, deli] => match decStr k, decStr d, decStr deli with
+    | some k, some d, some deli => encList (getStringArray m env k d deli) | _, _, _ => "bad-op"
+  | ["s", k, d, deli] => match decStr k, decStr d, decStr deli with
+    | some k, some d, some deli => encInts (getIntSet m env k d deli) | _, _, _ => "bad-op"
+  | ["S", k, d, deli] => match decStr k, decStr d, decStr deli with
+    | some k, some d, some deli => encInts (getIntSetD38 m env k d deli) | _, _, _ => "bad-op"
+  | _ => "bad-op"
+
+def answer (st : DrvSt) (line : String) : DrvSt × String :=
+  match line.splitOn " " with
+  | ["N"] => ({ st with cfg := Cfg.init, file := none }, "ok")
+  | ["V", k, v] => match decStr k, decStr v with
+    | some k, some v => ({ st with env := put st.env k v }, "ok")
+    | _, _ => (st, "bad-op")
+  | ["E", t, text] => match parseInt t, decStr text with
+    | some t, some text => ({ st with file := some ⟨t, text⟩ }, "ok")
+    | _, _ => (st, "bad-op")
+  | ["D"] => ({ st with file := none }, "ok")
+  | ["R"] =>
+    let (c, r) := reload verFull st.cfg st.file
+    ({ st with cfg := c }, showRes c r)
+  | ["RS"] =>
+    let (c, r) := reload verSec st.cfg st.file
+    ({ st with cfg := c }, showRes c r)
+  | "G" :: args => (st, getter st args)
+  | ["K"] => (st, encList (st.cfg.m.map (·.1)))
+  | ["P", text] => match decStr text with
+    | some text =>
+      (st, match parseProps text with
+        | .ok props => "ok " ++ encPairs (readMap props)
+        | .malformed => "malformed"
+        | .expansion => "expansion")
+    | none => (st, "bad-op")
+  | ["W", fx, text, pairs] => match decStr text, decPairs pairs with
+    | some text, some pairs => (st, showWrite (writeModel (fx == "1") text pairs))
+    | _, _ => (st, "bad-op")
+  | ["S", fx, pre, suf, excl, text, pairs] =>
+    match decStr pre, decStr suf, decList excl, decStr text, decPairs pairs with
+    | some pre, some suf, some excl, some text, some pairs =>
+      (st, showWrite (setValuesModel (fx == "1") pre suf excl text pairs))
+    | _, _, _, _, _ => (st, "bad-op")
+  | ["C", which, old, new] => match decStr old, decStr new with
+    | some old, some new =>
+      let seq := if which == "trunc" then truncSeq else atomicSeq
+      let states := crashStates new seq ⟨some old, none⟩
+      let contents := states.map (fun fs => match fs.target with | some c => c | none => "\x00missing".toList)
+      (st, encList contents.eraseDups)
+    | _, _ => (st, "bad-op")
+  | _ => (st, "bad-op")
+
+def main : IO Unit := mainLoop ({} : DrvSt) answer
